@@ -71,6 +71,8 @@ type c19Case struct {
 	DepVersion    string        `json:"dep_version,omitempty"`
 	SkipUpdate    bool          `json:"skip_update,omitempty"`
 	UpdateFirst   bool          `json:"update_first,omitempty"` // downloader: refresh the repository's index first (helm repo update)
+	// ThenPull (pull): a second reference pulled with the same Pull object afterwards, as `helm pull a b` does
+	ThenPull string `json:"then_pull,omitempty"`
 	Redirects     []c19Redirect `json:"redirects,omitempty"`
 }
 
@@ -218,6 +220,10 @@ func c19Exec(env *c19Env, cs *c19Case) (reqs []c19Req, opErr error, harness erro
 			p.Verify = cs.Verify == "always"
 			p.VerifyLater = cs.Verify == "later"
 			_, opErr = p.Run(cs.Ref)
+			if cs.ThenPull != "" {
+				// the error of the second pull is not the case's outcome; what it sends is judged like everything else
+				_, _ = p.Run(cs.ThenPull)
+			}
 		}
 	case "manager":
 		ch := filepath.Join(dir, "parent")
@@ -904,6 +910,14 @@ func c19FlagPathProp(env *c19Env, path string, verifies []string) func(rt *rapid
 			// reponame-flag-creds: the repository is configured without credentials, they are given as --username/--password
 			cs.Ref = "myrepo/" + c19Chart
 			labels = append(labels, c19GenSecond(rt, cs, p))
+			if path == "pull" && cs.Mode == "reponame" && rapid.Bool().Draw(rt, "thenPullAnother") {
+				// `helm pull a b`: the same Pull object goes on to a chart that is not the first repository's business
+				cs.ThenPull = "http://elsewhere.example.test/other-1.0.0.tgz"
+				if len(cs.Repos) == 2 && rapid.Bool().Draw(rt, "thenPullFromSecond") {
+					cs.ThenPull = "second/" + c19Chart
+				}
+				labels = append(labels, "second-reference-pulled-with-the-same-pull-object")
+			}
 		case "direct-url":
 			// --username/--password given together with a plain chart URL: that URL is what the credentials are for
 			cs.Ref = c19Resolve(p.repoURL, c19File)
